@@ -290,7 +290,10 @@ impl LspServer {
 
     /// `file://<folder>` without a trailing slash.
     pub fn folder_uri(&self) -> String {
-        format!("file://{}", self.folder.display())
+        // percent-encoded the way the `url` crate (hence the server) writes it
+        url::Url::from_directory_path(&self.folder)
+            .map(|u| u.to_string().trim_end_matches('/').to_owned())
+            .unwrap_or_else(|_| format!("file://{}", self.folder.display()))
     }
 
     /// URI of a file of the workspace folder (relative name, `/`-separated).
@@ -313,7 +316,7 @@ impl LspServer {
             return inside.to_owned();
         }
         let Some(path) = uri.strip_prefix("file://") else { return uri.to_owned() };
-        let folder = self.folder.display().to_string();
+        let folder = self.folder_uri().strip_prefix("file://").unwrap_or_default().to_owned();
         let f: Vec<&str> = folder.split('/').filter(|s| !s.is_empty()).collect();
         let t: Vec<&str> = path.split('/').filter(|s| !s.is_empty()).collect();
         let mut common = 0;
@@ -732,7 +735,9 @@ impl TempWorkspace {
         if n == 0 {
             sweep_stale_workspaces();
         }
-        let path = PathBuf::from(format!("{WS_PARENT}/{WS_PREFIX}{}-{n}", std::process::id()));
+        // a blank and a non-ASCII letter in the name: every path and URI of the session needs
+        // percent-encoding and decoding
+        let path = PathBuf::from(format!("{WS_PARENT}/{WS_PREFIX}{}-{n} \u{e9}", std::process::id()));
         let _ = std::fs::remove_dir_all(&path);
         std::fs::create_dir_all(&path)?;
         let ws = TempWorkspace { path };
